@@ -641,4 +641,343 @@ theorem stepPP_handover_gives (K : Nat) (cfg : Cfg) (p c : Nat) (s : Shared) (l 
       = pot K s a + uPP p (stepPP cfg p c s l b (.h7 h r t m)).2.2.1 a + u r a := by
   simp only [stepPP, hx, ↓reduceIte, uPP, pot_set_control]; omega
 
+/-! ## `compare_and_swap` and `rcu`: the containers enter the ledger -/
+
+/-- references held by the containers below `N` -/
+def cellsU (N : Nat) (s : Shared) (a : Nat) : Nat := sumN (fun c => ind (s.cells c = some a)) N
+
+/-- conservation with the containers on the owners' side -/
+def ConsC (K N : Nat) (s s' : Shared) (U U' : Nat → Nat) : Prop :=
+  ∀ a, a ≠ 0 → pot K s' a + cellsU N s a + U a = pot K s a + cellsU N s' a + U' a
+
+theorem ConsC.of_cons {K N : Nat} {s s' : Shared} {U U' : Nat → Nat} (h : Cons K s s' U U')
+    (hc : s'.cells = s.cells) : ConsC K N s s' U U' := by
+  intro a ha
+  have := h a ha
+  simp only [cellsU, hc]; omega
+
+theorem ind_some (p a : Nat) : ind (some p = some a) = u p a := by
+  simp only [ind, u, Option.some.injEq]
+
+theorem cellsU_write (N : Nat) (s : Shared) (c p a : Nat) (hc : c < N) :
+    cellsU N (s.writeCell c p) a + ind (s.cells c = some a) = cellsU N s a + u p a := by
+  have := @sumN_upd (fun k => ind (s.cells k = some a)) (fun k => ind ((s.writeCell c p).cells k = some a)) N c hc
+    (fun m hm => by simp [Shared.writeCell, upd, hm])
+  simp only [cellsU]
+  have e : ind ((s.writeCell c p).cells c = some a) = u p a := by
+    simp [Shared.writeCell, ind, u]
+  omega
+
+theorem pot_writeCell (K : Nat) (s : Shared) (c p a : Nat) : pot K (s.writeCell c p) a = pot K s a :=
+  pot_frame rfl (fun _ => ⟨rfl, rfl⟩)
+
+def uG (g : Guard) : Nat → Nat := u g.ptr
+
+theorem uGD_ofGuard (g : Guard) (a : Nat) (ha : a ≠ 0) : uGD (GD.ofGuard g) a = uG g a := by
+  unfold GD.ofGuard uG
+  cases hd : g.debt with
+  | some nd => simp [uGD]
+  | none =>
+    dsimp only
+    split
+    · rename_i h0; rw [h0]; simp [uGD, u_zero a ha]
+    · simp [uGD]
+
+theorem uGI_ofGuard (g : Guard) (a : Nat) (ha : a ≠ 0) (hne : GI.ofGuard g ≠ .done) :
+    uGI g.ptr (GI.ofGuard g) a = uG g a := by
+  unfold GI.ofGuard uG at *
+  cases hd : g.debt with
+  | none => simp [hd] at hne
+  | some nd =>
+    dsimp only
+    split
+    · rename_i h0; rw [h0]; simp [uGI, u_zero a ha]
+    · simp [uGI]
+
+theorem GD.ofGuard_ok (K : Nat) (g : Guard) (h : ∀ n idx, g.debt = some (n, idx) → n < K ∧ idx < slotCnt) :
+    (GD.ofGuard g).ok K := by
+  unfold GD.ofGuard
+  cases hd : g.debt with
+  | some nd => exact h nd.1 nd.2 (by rw [hd])
+  | none => dsimp only; split <;> trivial
+
+/-- units of a `compare_and_swap` (strategy level) in progress, for the new value `new` -/
+def uCP (new : Nat) : CP → Nat → Nat
+  | .load ld => fun a => uLP ld a + u new a
+  | .dropNew old => fun a => uG old a + u new a
+  | .cx old => fun a => uG old a + u new a
+  | .pay old pp => fun a => 2 * uG old a + uPP old.ptr pp a
+  | .decOld old => fun a => 2 * uG old a
+  | .dropOld gd => fun a => uGD gd a + u new a
+  | .done old => uG old
+
+def Guard.ok (K : Nat) (g : Guard) : Prop := ∀ n idx, g.debt = some (n, idx) → n < K ∧ idx < slotCnt
+
+def CP.ok (K cur : Nat) : CP → Prop
+  | .load ld => ld.ok
+  | .cx old => old.ptr = cur ∧ old.ok K
+  | .pay _ pp => pp.ok K
+  | .dropOld gd => gd.ok K
+  | _ => True
+
+/-- **Every step of `compare_and_swap` conserves**: the exchange moves `new` into the container and
+    the container's reference to `current` to the caller, who releases it after the walk; a failed
+    exchange gives the guard back and tries again; a rejected `new` is released. -/
+theorem stepCP_cons (K N : Nat) (cfg : Cfg) (c cur new : Nat) (s : Shared) (l : Locals) (b : Bool) (cp : CP)
+    (hk : cp.ok K cur) (hn : l.node.getD 0 < K) (hc : c < N) (hb : Beyond s)
+    (hnh : ∀ old h r t m, cp = .pay old (.h7 h r t m) → (s.nodes h.who).control ≠ h.ctl)
+    (hf : (stepCP cfg c cur new s l b cp).1.fault = none) :
+    ConsC K N s (stepCP cfg c cur new s l b cp).1 (uCP new cp) (uCP new (stepCP cfg c cur new s l b cp).2.2.1) := by
+  cases cp with
+  | load ld =>
+    have hcons := stepLP_cons K cfg c s l b ld hk hn hb
+    have hfr := (stepLP_frame cfg c s l b ld).1
+    simp only [stepCP] at hf ⊢
+    split
+    · rename_i s' l' p d evs heq
+      simp only [heq] at hcons hfr hf
+      have hf' : s'.fault = none := by (repeat' split at hf) <;> exact hf
+      intro a ha
+      have h1 := (ConsC.of_cons (N := N) (hcons hf') hfr) a ha
+      have e : uLP (LP.done p d) a = u p a := rfl
+      rw [e] at h1
+      (repeat' split) <;> simp only [uCP, uG] <;> try omega
+      · rename_i h0; subst h0; have := u_zero a ha; omega
+    · rename_i s' l' ld' evs hne heq
+      simp only [heq] at hcons hfr hf
+      intro a ha
+      have h1 := (ConsC.of_cons (N := N) (hcons hf) hfr) a ha
+      simp only [uCP]; omega
+  | dropNew old =>
+    simp only [stepCP] at hf ⊢
+    intro a ha
+    have := pot_dec K s new a ha hf
+    simp only [uCP, cellsU, decObj_cells]; omega
+  | cx old =>
+    obtain ⟨hptr, hok⟩ := hk
+    simp only [stepCP] at hf ⊢
+    intro a ha
+    split
+    · rename_i q hq
+      split
+      · rename_i hcond
+        have hqc : q = cur := by simp at hcond; exact hcond.2
+        have h1 := cellsU_write N s c new a hc
+        rw [hq, ind_some] at h1
+        simp only [uCP, uG, uPP, pot_writeCell]
+        rw [hptr, ← hqc]; omega
+      · by_cases hgd : GD.ofGuard old = .done
+        · have := uGD_ofGuard old a ha
+          rw [hgd] at this
+          simp only [hgd, ↓reduceIte, uCP, uLP, uGD] at this ⊢
+          omega
+        · have := uGD_ofGuard old a ha
+          simp only [hgd, ↓reduceIte, uCP]; omega
+    · rename_i hq; simp only [hq] at hf; exact absurd hf (setFault_ne_none _ _)
+  | pay old pp =>
+    have hcons := stepPP_cons K cfg old.ptr c s l b pp hk hn hb (fun h r t m e => hnh old h r t m (by rw [e]))
+    have hfr := (stepPP_frame cfg old.ptr c s l b pp).1
+    simp only [stepCP] at hf ⊢
+    split
+    · rename_i s' l' evs heq
+      simp only [heq] at hcons hfr hf
+      have hf' : s'.fault = none := by (repeat' split at hf) <;> exact hf
+      intro a ha
+      have h1 := (ConsC.of_cons (N := N) (hcons hf') hfr) a ha
+      have e : uPP old.ptr PP.done a = 0 := rfl
+      rw [e] at h1
+      split
+      · rename_i h0; simp only [uCP, uG, h0, u_zero a ha] at h1 ⊢; omega
+      · simp only [uCP]; omega
+    · rename_i s' l' pp' evs hne heq
+      simp only [heq] at hcons hfr hf
+      intro a ha
+      have h1 := (ConsC.of_cons (N := N) (hcons hf) hfr) a ha
+      simp only [uCP]; omega
+  | decOld old =>
+    simp only [stepCP] at hf ⊢
+    intro a ha
+    have := pot_dec K s old.ptr a ha hf
+    simp only [uCP, uG, cellsU, decObj_cells]; omega
+  | dropOld gd =>
+    have hcons := stepGD_cons K s gd hk
+    have hfr := (stepGD_frame s gd).1
+    simp only [stepCP] at hf ⊢
+    split
+    · rename_i s' evs heq
+      simp only [heq] at hcons hfr hf
+      intro a ha
+      have h1 := (ConsC.of_cons (N := N) (hcons hf) hfr) a ha
+      have e : uGD GD.done a = 0 := rfl
+      rw [e] at h1
+      simp only [uCP, uLP]; omega
+    · rename_i s' gd' evs hne heq
+      simp only [heq] at hcons hfr hf
+      intro a ha
+      have h1 := (ConsC.of_cons (N := N) (hcons hf) hfr) a ha
+      simp only [uCP]; omega
+  | done old => intro a _; simp [stepCP, uCP]
+
+/-- units of an `rcu` in progress -/
+def uRP : RP → Nat → Nat
+  | .load ld => uLP ld
+  | .attempt cur => uG cur
+  | .cas cur a cp => fun x => uG cur x + uCP a cp x
+  | .intoPrev cur prev gi => fun x => uG cur x + uGI prev.ptr gi x
+  | .dropCur res gd => fun x => u res x + uGD gd x
+  | .dropCurLoop prev gd => fun x => uG prev x + uGD gd x
+  | .done r => u r
+
+def RP.ok (K : Nat) : RP → Prop
+  | .load ld => ld.ok
+  | .attempt cur => cur.ok K
+  | .cas cur _ cp => cur.ok K ∧ cp.ok K cur.ptr
+  | .intoPrev cur prev gi => cur.ok K ∧ gi.ok K prev.ptr
+  | .dropCur _ gd => gd.ok K
+  | .dropCurLoop prev gd => prev.ok K ∧ gd.ok K
+  | .done _ => True
+
+/-- a fresh value starts with exactly one reference (its address was not in use) -/
+theorem pot_alloc (K : Nat) (s : Shared) (val a : Nat) (hdead : (s.heap (alloc s val).2.1).cnt = 0) :
+    pot K (alloc s val).1 a = pot K s a + u (alloc s val).2.1 a := by
+  simp only [alloc] at hdead ⊢
+  simp only [pot, u]
+  by_cases hp : lowestFree s.heap 4096 = a
+  · subst hp; simp [upd, hdead]; omega
+  · have : a ≠ lowestFree s.heap 4096 := fun h => hp h.symm
+    simp [upd, this, hp]
+
+theorem alloc_cells (s : Shared) (val : Nat) : (alloc s val).1.cells = s.cells := rfl
+theorem alloc_fault (s : Shared) (val : Nat) : (alloc s val).1.fault = s.fault := rfl
+
+/-- **Every step of `rcu` conserves**: each attempt's fresh result is either installed by the
+    exchange or released by the failed `compare_and_swap`; the guards of the previous attempt and
+    of the value replaced are given back or promoted. -/
+theorem stepRP_cons (K N : Nat) (cfg : Cfg) (c : Nat) (s : Shared) (l : Locals) (b : Bool) (tries : Nat) (rp : RP)
+    (hk : rp.ok K) (hn : l.node.getD 0 < K) (hc : c < N) (hb : Beyond s)
+    (hnh : ∀ cur a old h r t m, rp = .cas cur a (.pay old (.h7 h r t m)) → (s.nodes h.who).control ≠ h.ctl)
+    (hroom : ∀ cur, rp = .attempt cur → ∀ v, (s.heap (alloc s v).2.1).cnt = 0)
+    (hf : (stepRP cfg c s l b tries rp).1.fault = none) :
+    ConsC K N s (stepRP cfg c s l b tries rp).1 (uRP rp) (uRP (stepRP cfg c s l b tries rp).2.2.1) := by
+  cases rp with
+  | load ld =>
+    have hcons := stepLP_cons K cfg c s l b ld hk hn hb
+    have hfr := (stepLP_frame cfg c s l b ld).1
+    simp only [stepRP] at hf ⊢
+    split
+    · rename_i s' l' p d evs heq
+      simp only [heq] at hcons hfr hf
+      intro a ha
+      have h1 := (ConsC.of_cons (N := N) (hcons hf) hfr) a ha
+      have e : uLP (LP.done p d) a = u p a := rfl
+      rw [e] at h1
+      simp only [uRP, uG]; omega
+    · rename_i s' l' ld' evs hne heq
+      simp only [heq] at hcons hfr hf
+      intro a ha
+      have h1 := (ConsC.of_cons (N := N) (hcons hf) hfr) a ha
+      simp only [uRP]; omega
+  | attempt cur =>
+    intro a ha
+    by_cases hd : cur.ptr ≠ 0 ∧ (!(s.heap cur.ptr).live) = true
+    · simp only [stepRP, hd, ↓reduceIte] at hf
+      have : ((s.setFault (Fault.uaf "deref" cur.ptr)).fault = none) := by
+        simpa [alloc, hd.1] using hf
+      exact absurd this (setFault_ne_none _ _)
+    · have h1 := pot_alloc K s ((if cur.ptr = 0 then 0 else (s.heap cur.ptr).val) + 1) a (hroom cur rfl _)
+      have h2 := alloc_cells s ((if cur.ptr = 0 then 0 else (s.heap cur.ptr).val) + 1)
+      simp only [stepRP, hd, ↓reduceIte]
+      generalize alloc s ((if cur.ptr = 0 then 0 else (s.heap cur.ptr).val) + 1) = r at h1 h2 ⊢
+      obtain ⟨s', a', evs⟩ := r
+      simp only [uRP, uCP, uLP, cellsU] at h1 h2 ⊢
+      rw [h2]; omega
+  | cas cur x cp =>
+    obtain ⟨hcur, hcp⟩ := hk
+    have hcons := stepCP_cons K N cfg c cur.ptr x s l b cp hcp hn hc hb
+      (fun old h r t m e => hnh cur x old h r t m (by rw [e]))
+    simp only [stepRP] at hf ⊢
+    split
+    · rename_i s' l' prev evs heq
+      simp only [heq] at hcons hf
+      have hf' : s'.fault = none := by (repeat' split at hf) <;> exact hf
+      intro a ha
+      have h1 := hcons hf' a ha
+      have e : uCP x (CP.done prev) a = uG prev a := rfl
+      rw [e] at h1
+      have hgd := uGD_ofGuard cur a ha
+      split
+      · split
+        · rename_i hgi
+          split
+          · rename_i hg; rw [hg] at hgd; simp only [uGD] at hgd; simp only [uRP, uG] at h1 hgd ⊢; omega
+          · simp only [uRP, uG] at h1 hgd ⊢; omega
+        · rename_i hgi
+          have := uGI_ofGuard prev a ha hgi
+          simp only [uRP, uG] at h1 this ⊢; omega
+      · split
+        · rename_i hg; rw [hg] at hgd; simp only [uGD] at hgd; simp only [uRP, uG] at h1 hgd ⊢; omega
+        · simp only [uRP, uG] at h1 hgd ⊢; omega
+    · rename_i s' l' cp' evs hne heq
+      simp only [heq] at hcons hf
+      intro a ha
+      have h1 := hcons hf a ha
+      simp only [uRP]; omega
+  | intoPrev cur prev gi =>
+    obtain ⟨hcur, hgi⟩ := hk
+    have hcons := stepGI_cons K prev.ptr s gi hgi
+    have hfr := (stepGI_frame s gi).1
+    simp only [stepRP] at hf ⊢
+    split
+    · rename_i s' evs heq
+      simp only [heq] at hcons hfr hf
+      have hf' : s'.fault = none := by (repeat' split at hf) <;> exact hf
+      intro a ha
+      have h1 := (ConsC.of_cons (N := N) (hcons hf') hfr) a ha
+      have e : uGI prev.ptr GI.done a = u prev.ptr a := rfl
+      rw [e] at h1
+      have hgd := uGD_ofGuard cur a ha
+      split
+      · rename_i hg; rw [hg] at hgd; simp only [uGD] at hgd; simp only [uRP, uG] at h1 hgd ⊢; omega
+      · simp only [uRP, uG] at h1 hgd ⊢; omega
+    · rename_i s' gi' evs hne heq
+      simp only [heq] at hcons hfr hf
+      intro a ha
+      have h1 := (ConsC.of_cons (N := N) (hcons hf) hfr) a ha
+      simp only [uRP]; omega
+  | dropCur res gd =>
+    have hcons := stepGD_cons K s gd hk
+    have hfr := (stepGD_frame s gd).1
+    simp only [stepRP] at hf ⊢
+    split
+    · rename_i s' evs heq
+      simp only [heq] at hcons hfr hf
+      intro a ha
+      have h1 := (ConsC.of_cons (N := N) (hcons hf) hfr) a ha
+      have e : uGD GD.done a = 0 := rfl
+      rw [e] at h1
+      simp only [uRP]; omega
+    · rename_i s' gd' evs hne heq
+      simp only [heq] at hcons hfr hf
+      intro a ha
+      have h1 := (ConsC.of_cons (N := N) (hcons hf) hfr) a ha
+      simp only [uRP]; omega
+  | dropCurLoop prev gd =>
+    have hcons := stepGD_cons K s gd hk.2
+    have hfr := (stepGD_frame s gd).1
+    simp only [stepRP] at hf ⊢
+    split
+    · rename_i s' evs heq
+      simp only [heq] at hcons hfr hf
+      intro a ha
+      have h1 := (ConsC.of_cons (N := N) (hcons hf) hfr) a ha
+      have e : uGD GD.done a = 0 := rfl
+      rw [e] at h1
+      simp only [uRP]; omega
+    · rename_i s' gd' evs hne heq
+      simp only [heq] at hcons hfr hf
+      intro a ha
+      have h1 := (ConsC.of_cons (N := N) (hcons hf) hfr) a ha
+      simp only [uRP]; omega
+  | done r => intro a _; simp [stepRP, uRP]
+
 end M
